@@ -16,7 +16,7 @@ func init() {
 		ID: "C17",
 		Explanation: "SimpleAPI request fidelity decided on SSA: (R1) verb fidelity - for every APIMake<Verb>… constructor and every SimpleHTTP verb method the method string that reaches http.NewRequestWithContext (followed through the generic constructors and the captured parameter) is the net/http constant of the verb in the function's name; " +
 			"(R2) lazy and once - the constructors' own bodies and the per-call function's own body call nothing that serialises or sends; in the effect closure handed to the MonadIO builder there is at most one request call per path and exactly one on every path that does not return a serializer error; its URL argument is the result of the template fold on (relativeURL, pathParam), its header argument is the result of DefaultHeader.Clone(), its body the serializer's reader, its content type the declared one; " +
-			"(R3) the template fold threads its accumulator (the string substituted into is the previous iteration's result) and the URL is BaseURL + \"/\" + accumulator; (R4) decoding happens only on the Err == nil edge, a serializer error returns a response with Err set before any request, and the assertion on the user-supplied deserializer's result is comma-ok. Not decided: the bytes of the body, multipart file handling, net/http itself.",
+			"(R3) the template fold threads its accumulator (the string substituted into is the previous iteration's result) and the URL is BaseURL + \"/\" + accumulator; (R4) decoding happens only on the Err == nil edge, a serializer error returns a response with Err set before any request, and the assertion on the user-supplied deserializer's result is comma-ok. Not decided: the bytes of the body, multipart file handling, net/http itself. (R5) nothing handed back to a sync.Pool escapes through a result.",
 		Trusted: append([]string{"net/http: a nil error from Client.Do implies a non-nil Response.Body"}, commonTrusted...),
 		Run:     runC17,
 		Relies: []Dep{
